@@ -1,5 +1,5 @@
 (* C01 correspondence: cases as printed by harness/c01 (format: Check.C01_Case). *)
-From Verif Require Export Lib.Base Model.C01_Attester Check.C01_Case.
+From Verif Require Export Lib.Base Model.C01_Attester Model.C01_Ties Check.C01_Case.
 
 (* The property evaluated on the OBSERVED calls alone (the model is not consulted):
    - over the whole history no (validator, epoch) is handed to the signer twice
@@ -22,6 +22,52 @@ Definition signreq_ok (spe : N) (rs : list run) (q : signreq) : bool :=
 Definition P_b (c : case) : bool :=
   nodupb (prod_eqb N.eqb N.eqb) (sign_list (c_spe c) (c_trace c)) &&
   forallb (fun ev => match ev with SignReq q => signreq_ok (c_spe c) (c_runs c) q | Submit _ _ => true end) (c_trace c).
+
+(* Correspondence.  A history whose wake-up instants are all distinct has one outcome, computed by
+   [C01_Case.agree].  When calls wake up at the same instant the harness interleaves them inside the
+   code wherever the code calls out of itself (harness/attenv/yield.go); the observed outcome must then
+   be one of the outcomes of the interleavings of the tied segments ([outcomes], Model/C01_Ties.v; each
+   is the outcome of a schedule: C01_tied_outcomes_are_histories). *)
+Definition observed_is (c : case) (st : state) : bool :=
+  negb (g_panic st) &&
+  list_eqb event_eqb (g_trace st) (c_trace c) &&
+  list_eqb result_eqb (model_results (g_trace st) 0 (c_runs c)) (c_results c) &&
+  list_eqb (prod_eqb N.eqb (list_eqb N.eqb)) (norm_att (g_att st)) (c_final c).
+
+Definition has_ties (c : case) : bool := negb (nodupb N.eqb (map fst (wake_times 0 (c_times c)))).
+
+Definition agree_tied (c : case) : bool :=
+  existsb (fun o => observed_is c (fst o)) (outcomes (c_spe c) (c_runs c) (wake_times 0 (c_times c))).
+
+(* Racing histories (harness/attenv/racing.go): all calls released together on real threads, every
+   environment call returning at once (all latencies zero: the marker), all for one epoch, valid data,
+   every validator with an account, nothing failing.  The interleaving is neither chosen nor known and the
+   interleavings of whole calls are too many to enumerate, so the comparison is with what EVERY schedule
+   of the model yields for such a history: each validator of the duties is signed for exactly once, the
+   attested map ends as that epoch with exactly those validators, and the calls return together as many
+   attestations as there are validators. *)
+Definition is_racing (c : case) : bool :=
+  match c_times c with [] => false | _ => forallb (fun t => tm_fetch t =? 0) (c_times c) end.
+
+Fixpoint dedup (l : list N) : list N :=
+  match l with [] => [] | x :: l' => if memb N.eqb x l' then dedup l' else x :: dedup l' end.
+
+Definition agree_racing (c : case) : bool :=
+  let vals := sort_by (fun x : N => x) (dedup (flat_map (fun r => d_vals (r_duty r)) (c_runs c))) in
+  match c_runs c with
+  | [] => false
+  | r0 :: _ =>
+      let e := epoch_of (c_spe c) (d_slot (r_duty r0)) in
+      forallb (fun r => (epoch_of (c_spe c) (d_slot (r_duty r)) =? e) &&
+                        match s_fetch (r_script r) with Some a => data_ok (c_spe c) (r_duty r) a | None => false end) (c_runs c) &&
+      list_eqb N.eqb (sort_by (fun x : N => x) (map fst (sign_list (c_spe c) (c_trace c)))) vals &&
+      forallb (fun p => snd p =? e) (sign_list (c_spe c) (c_trace c)) &&
+      list_eqb (prod_eqb N.eqb (list_eqb N.eqb)) (c_final c) [(e, vals)] &&
+      (fold_right (fun r a => match r with ROk n => n + a | RErr => a end) 0 (c_results c) =? N.of_nat (length vals))
+  end.
+
+Definition agree (c : case) : bool :=
+  if is_racing c then agree_racing c else if has_ties c then agree_tied c else C01_Case.agree c.
 
 Definition mismatches (cs : list case) : list N := failing_ids c_id agree cs.
 Definition violations (cs : list case) : list N := failing_ids c_id P_b cs.
